@@ -38,6 +38,7 @@ BUDGET = {"quick": 150, "thorough": 2400}
 JOBS = {"quick": 4, "thorough": 16}
 
 LEVELS = ["1.1", "1.5"]
+NOTES = __import__("collections").Counter()
 
 
 @functools.lru_cache(maxsize=None)
@@ -212,8 +213,13 @@ def run_case(case):
                 [sys.executable, "-c", KILL_SCRIPT, prod.url, image, str(offset)],
                 capture_output=True, text=True, env=dict(os.environ), timeout=120,
             )
-            if r.returncode != -9:
-                raise RuntimeError(f"child was not killed: rc={r.returncode} {r.stdout[-100:]} {r.stderr[-300:]}")
+            if r.returncode == 0 and "NOT-KILLED" in r.stdout:
+                # the library did not write the index through pathlib.Path.write_text (e.g. a
+                # temp-file + rename scheme): the crash could not be injected this way; the state
+                # left behind (a complete cache) is still judged below
+                NOTES["sigkill-not-injected"] += 1
+            elif r.returncode != -9:
+                raise RuntimeError(f"child failed: rc={r.returncode} {r.stdout[-100:]} {r.stderr[-300:]}")
             torn = c07.user_index_path(prod.url, image)
             size = torn.stat().st_size if torn.exists() else None
             out = after_fault(prod, images, ref, docs, "SIGKILL during create_cache")
